@@ -1,11 +1,14 @@
 (* C11 driver.  (De)serialisation only.
    Values  v ::= N | A<hex> | T(v;v;...) | O<clshex>(v;...) | I<handle> | R<handle>
-   Store   cells joined by "|" ("." = empty): D(<keyhex>=v;...) | L(v;...)
+   Store   cells joined by "|" ("." = empty): D(<keyhex>=v;...) | L(v;...) | F(<keyhex>=v;...)
+           F = an instance of a dict subclass whose __missing__ inserts (defaultdict, ...)
    Args    (v;v;...)
    Steps   joined by "|" ("." = none):
            set:h:khex:v del:h:khex clear:h app:h:v idx:h:i:v pop:h      (caller mutations)
            setattr:namehex delattr:namehex setitem:khex delitem:khex    (attempts on the object)
            copypop:khex                                                 (object.copy_pop(key), result dropped)
+           read:<fieldhex or ->:contains|get|getitem:khex   read:<fieldhex or ->:iter|len|items|todict|hash|eq
+                                                                        (read-only access to the object / its field)
    Requests
      run new|old|popinplace <fuel> ctor|fromdict <clshex> <store> <args> <steps> <watch>
          -> ok <obs> <e>/<obs> ... wb:<obs> ... wa:<obs> ...   |  err <E>
@@ -65,9 +68,10 @@ let parse_cell (s : string) : cell =
   let inner = String.sub s 2 (String.length s - 3) in
   match s.[0] with
   | 'L' -> (match parse_value ("T(" ^ inner ^ ")") with VTuple l -> PyList l | _ -> failwith "cell")
-  | 'D' ->
-      if inner = "" then PyDict [] else
-      PyDict (List.map (fun kv ->
+  | 'D' | 'F' ->
+      let fac = (s.[0] = 'F') in
+      if inner = "" then PyDict (fac, []) else
+      PyDict (fac, List.map (fun kv ->
         let i = String.index kv '=' in
         (atom_of_hex (String.sub kv 0 i), parse_value (String.sub kv (i + 1) (String.length kv - i - 1))))
         (split_top ';' inner))
@@ -88,6 +92,14 @@ let parse_step (s : string) : step =
   | ["setitem"; k] -> SChan (CSetItem (atom_of_hex k, VNone))
   | ["delitem"; k] -> SChan (CDelItem (atom_of_hex k))
   | ["copypop"; k] -> SCopyPop (atom_of_hex k)
+  | ["read"; f; kind; k] ->
+      let fld = if f = "-" then None else Some (atom_of_hex f) in
+      let a = atom_of_hex k in
+      SRead (fld, (match kind with "contains" -> RdContains a | "get" -> RdGet a | "getitem" -> RdGetItem a | _ -> failwith "read"))
+  | ["read"; f; kind] ->
+      let fld = if f = "-" then None else Some (atom_of_hex f) in
+      SRead (fld, (match kind with "iter" -> RdIter | "len" -> RdLen | "items" -> RdItems | "todict" -> RdToDict
+                                   | "hash" -> RdHash | "eq" -> RdEq | _ -> failwith "read"))
   | _ -> failwith "step"
 let parse_steps (s : string) : step list = if s = "." then [] else List.map parse_step (String.split_on_char '|' s)
 
@@ -117,7 +129,8 @@ let show_obs (((((r, d), k), _), ok) : observation) : string =
 let hid (_ : rval) : n list = [n_of_int 1; n_of_int 42]
 let hpy (_ : rval) : n = n_of_int 0
 
-let variant_of s = if s = "old" then Old else if s = "popinplace" then PopInPlace else New
+let variant_of s = if s = "old" then Old else if s = "popinplace" then PopInPlace
+                    else if s = "subclasscopy" then SubclassCopy else New
 let b01 b = if b then "1" else "0"
 let show_kind k = match k with KChecked -> "checked" | KFreezeDict -> "freezedict" | KTuplify -> "tuplify" | KUnchecked -> "unchecked"
 
